@@ -136,6 +136,12 @@ fn fixture(dir: &str, list: &Option<String>) -> Fx {
     for (k, v) in [("apple", "1"), ("buzz", "2"), ("xmidx", "3"), ("other", "4"), ("$$secret", "s"), ("n", "5")] {
         adm.call(&node.dbs, &format!("set {} {}", k, v));
     }
+    // a second database the sessions under test never present a credential for
+    adm.call(&node.dbs, "use-db other otok");
+    for (k, v) in [("apple", "o1"), ("n", "7"), ("buzz", "o2")] {
+        adm.call(&node.dbs, &format!("set {} {}", k, v));
+    }
+    adm.call(&node.dbs, "use-db db tok");
     Fx { node, adm }
 }
 
@@ -171,7 +177,7 @@ fn login(cred: &Cred, s: &mut Session, node: &Node) {
 pub fn commands() -> Vec<String> {
     let mut c: Vec<String> = vec![];
     for k in ["apple", "buzz", "xmidx", "other", "$$secret", "n", "$conflicts", "fresh"] {
-        for f in ["get {}", "get-safe {}", "watch {}", "set {} v", "set-safe {} 99 v", "set-safe {} 0 v", "increment {}", "increment {} 2", "remove {}", "resolve 1 db {} 5 v", "unwatch {}", "rp 1 get {}", "rp 1 set {} v"] {
+        for f in ["get {}", "get-safe {}", "watch {}", "set {} v", "set-safe {} 99 v", "set-safe {} 0 v", "increment {}", "increment {} 2", "remove {}", "resolve 1 db {} 5 v", "resolve 1 other {} 5 v", "unwatch {}", "rp 1 get {}", "rp 1 set {} v"] {
             c.push(f.replace("{}", k));
         }
     }
@@ -231,6 +237,7 @@ fn run_session(cred: &Cred, lines: &[(String, Option<Option<String>>)], dir: &st
         let need = need_of(line);
         let expect = allowed(&cur_cred, &need);
         let before = dump_all(&fx.node.dbs);
+        let other_before = crate::common::node::dump_db(&fx.node.dbs, "other");
         let sel_before = (s.client.selected_db_name(), s.client.selected_db_user_name(), s.client.is_admin_auth());
         let dbs = fx.node.dbs.clone();
         let res = std::panic::catch_unwind(std::panic::AssertUnwindSafe(|| s.call(&dbs, line)));
@@ -262,6 +269,8 @@ fn run_session(cred: &Cred, lines: &[(String, Option<Option<String>>)], dir: &st
         // pushed lines without the rp acknowledgement
         let pushed: Vec<String> = reply.pushed.iter().filter(|p| !(word == "rp" && p.starts_with("ack "))).cloned().collect();
         let mut problem: Option<&str> = None;
+        // whatever the command and its verdict: a database this session never presented a credential for stays as it is
+        let other_changed = !matches!(cur_cred, Cred::Admin | Cred::AdminDb) && crate::common::node::dump_db(&fx.node.dbs, "other") != other_before;
         match expect {
             Some(false) => {
                 refused_n += 1;
@@ -298,6 +307,9 @@ fn run_session(cred: &Cred, lines: &[(String, Option<Option<String>>)], dir: &st
                     problem = Some("refused-command-changed-state");
                 }
             }
+        }
+        if problem.is_none() && other_changed {
+            problem = Some("command-changed-a-database-the-session-has-no-credential-for");
         }
         if let Some(p) = problem {
             let sub = if inner_word == "election" { format!("election {}", line.split(' ').nth(if word == "rp" { 3 } else { 1 }).unwrap_or("")) } else { inner_word.clone() };
